@@ -11,6 +11,7 @@ package main
 
 import (
 	"bytes"
+	"encoding/base64"
 	"encoding/hex"
 	"errors"
 	"fmt"
@@ -146,6 +147,15 @@ func c11Gen(r *h.RNG) c11Case {
 			c = c11Case{host: "svg", site: "svgStyleAttr", siteArg: cst, pre: root, open: `<g style="`, payload: p, close: `"/>`, post: "</svg>", wantMime: mime, wantPar: "inline=1", attr: true}
 			c.wantPay = c11Trim(c11WsRe.ReplaceAllString(p, " ")) // XML attribute-value normalisation: every whitespace run is one space
 		}
+	case k < 11 && r.Chance(50): // style element of an SVG that is itself embedded in HTML (the real svg minifier is the middle layer, called with inline=1)
+		pp := r.Pick([]string{"a{b:c}", "color : red", "q", "a;b", "x y z", "a { b : c } d { e : f }"})
+		if r.Bool() {
+			c = c11Case{host: "html", site: "htmlSvgStyle", pre: r.Pick(pres) + "<svg>", open: "<style>", payload: pp, close: "</style>", post: "<g/></svg>" + r.Pick(posts), wantMime: "text/css"}
+			c.wantPay = c11Trim(string(parse.ReplaceMultipleWhitespace([]byte(pp))))
+		} else {
+			c = c11Case{host: "html", site: "htmlSvgStyle", pre: r.Pick(pres) + "<svg>", open: `<g style="`, payload: pp, close: `"/>`, post: "</svg>" + r.Pick(posts), wantMime: "text/css", wantPar: "inline=1", attr: true}
+			c.wantPay = c11Trim(c11WsRe.ReplaceAllString(pp, " "))
+		}
 	default: // data URIs in CSS and HTML
 		mt := r.Pick([]string{"text/css", "image/svg+xml", "application/javascript", "text/x-custom"})
 		pay := r.Pick([]string{"abcdef", "xyzzy", "qq", "abc0123"})
@@ -172,10 +182,10 @@ func init() {
 		st := c.R.StartStage("embed-sites", "host documents (HTML raw-text elements with/without type attribute incl. module, application/ld+json, text/template, parameters; svg/math tokens; style and on* attributes; SVG style element text/CDATA and style attribute with/without contentStyleType; data: URIs in CSS url() and HTML URL attributes) x payloads x registry configurations (each sub-minifier literal present or absent, catch-all pattern present or absent, echoing / failing stubs); non-trivial = a stub was selected or the payload had to pass through a host with the type unregistered")
 		n := c.N(6000, 150000)
 		type item struct {
-			cs    c11Case
-			call  *c11Call
-			key   string
-			line  string
+			cs   c11Case
+			call *c11Call
+			key  string
+			line string
 		}
 		var items []item
 		for k := 0; k < n; k++ {
@@ -216,10 +226,23 @@ func init() {
 				}
 			}
 			hostMime := map[string]string{"html": "text/html", "svg": "image/svg+xml", "css": "text/css"}[cs.host]
+			if cs.site == "htmlSvgStyle" {
+				present["image/svg+xml"] = false // the middle layer is the real svg minifier
+				catchAll = false
+				present["text/css"] = true
+			}
 			for _, mt := range c11Mimes {
 				if present[mt] && mt != hostMime {
 					m.AddFunc(mt, mkStub(mt))
 				}
+			}
+			if cs.site == "htmlSvgStyle" {
+				m.AddFunc("image/svg+xml", minsvg.Minify)
+			}
+			// the host minifier's own parameters must not leak into the sub-minifier of a style ELEMENT (a style sheet), whatever they are
+			var hostParams map[string]string
+			if cs.host == "svg" && r.Bool() {
+				hostParams = map[string]string{"inline": "1"}
 			}
 			// the host itself is always the real minifier; when the host type is also an embed target (iframe → text/html,
 			// style inside svg → text/css …) a stub for it is registered only if `present`
@@ -237,12 +260,12 @@ func init() {
 				case "html":
 					err = (&minhtml.Minifier{}).Minify(m, &out, strings.NewReader(doc), nil)
 				case "svg":
-					err = (&minsvg.Minifier{}).Minify(m, &out, strings.NewReader(doc), nil)
+					err = (&minsvg.Minifier{}).Minify(m, &out, strings.NewReader(doc), hostParams)
 				case "css":
 					err = (&mincss.Minifier{}).Minify(m, &out, strings.NewReader(doc), nil)
 				}
 			})
-			cfg := fmt.Sprintf("present=%v catchall=%v failing=%v", c11PresentList(present), catchAll, failing)
+			cfg := fmt.Sprintf("present=%v catchall=%v failing=%v hostparams=%s", c11PresentList(present), catchAll, failing, c11ParamStr(hostParams))
 			key := fmt.Sprintf("%s site=%s doc=%q", cs.host, cs.site, doc)
 			if crash != "" {
 				c.R.Add(h.Finding{Stage: st.Name, Kind: "crash", What: crash, Input: key, Config: cfg})
@@ -316,7 +339,7 @@ func init() {
 					add("outer error is not the embedded minifier's error: " + err.Error())
 					continue
 				}
-				if pe, ok := err.(*parse.Error); ok && !plainErr {
+				if pe, ok := err.(*parse.Error); ok && !plainErr && cs.site != "htmlSvgStyle" {
 					// true position of the error in the outer document
 					off := len(cs.pre) + len(cs.open)
 					if cs.site == "htmlSvg" || cs.site == "htmlMath" {
@@ -379,7 +402,7 @@ func init() {
 				}
 			}
 			// (a) correspondence with the Lean model of the target selection
-			if cs.site != "dataURI" {
+			if cs.site != "dataURI" && cs.site != "htmlSvgStyle" {
 				cc := call
 				mp := cs.payload
 				if cs.host == "svg" {
@@ -582,6 +605,9 @@ func c11Real(c *Ctx) error {
 		{"text/html", "<P CLASS=A>x<SCRIPT>var = ;</SCRIPT>"}, {"text/html", "<P CLASS=\"A\"> x </P>"}, {"text/html", "<DIV><B>y</B></DIV>"},
 		{"image/svg+xml", "<svg  xmlns='http://www.w3.org/2000/svg'><path d='M 10 10 L 20 20'/></svg>"},
 		{"application/json", "{ \"a\" : [ 1.0 , 2 ] }"}, {"application/ld+json", "{ \"A\" : 1 ,"},
+		// payloads whose (minified) bytes need escaping in the host syntax: parentheses, quotes, blanks, backslash
+		{"text/plain", "a(b)"}, {"text/plain", "it's (x) y"}, {"text/plain", "say \"hi\" (now)"}, {"text/plain", "a b\\c )"}, {"text/plain", "((((((((((()))))))))))"},
+		{"text/css", "a { content : '(' }"}, {"text/css", "a{content:\")\"}"}, {"application/javascript", "f ( 'x' ) ;"}, {"application/javascript", "g ( \"y\" , ( 1 ) )"},
 	}
 	n := c.N(600, 20000)
 	for k := 0; k < n; k++ {
@@ -593,10 +619,20 @@ func c11Real(c *Ctx) error {
 		var extract func(out string) (string, bool)
 		host := "text/html"
 		switch r.Intn(4) {
-		case 0: // data URI in CSS
+		case 0: // data URI in CSS: unquoted / single / double quoted x percent-encoded / base64
 			host = "text/css"
-			enc := strings.ReplaceAll(string(parse.EncodeURL([]byte(p.text), parse.DataURIEncodingTable)), "'", "%27")
-			doc = "a{background:url('data:" + p.mime + "," + enc + "')}"
+			var body string
+			if r.Chance(35) {
+				body = "data:" + p.mime + ";base64," + base64.StdEncoding.EncodeToString([]byte(p.text))
+			} else {
+				enc := string(parse.EncodeURL([]byte(p.text), parse.DataURIEncodingTable))
+				for _, rp := range [][2]string{{"'", "%27"}, {"\"", "%22"}, {"(", "%28"}, {")", "%29"}, {" ", "%20"}, {"\\", "%5C"}, {"\t", "%09"}, {"\n", "%0A"}} {
+					enc = strings.ReplaceAll(enc, rp[0], rp[1])
+				}
+				body = "data:" + p.mime + "," + enc
+			}
+			q := r.Pick([]string{"", "'", "\""})
+			doc = "a{background:url(" + r.Pick([]string{"", " "}) + q + body + q + r.Pick([]string{"", " "}) + ")}"
 			extract = c11ExtractDataURI
 		case 1: // data URI in an HTML URL attribute
 			enc := strings.ReplaceAll(string(parse.EncodeURL([]byte(p.text), parse.DataURIEncodingTable)), "'", "%27")
@@ -662,6 +698,31 @@ func c11Real(c *Ctx) error {
 			c.R.Add(h.Finding{Stage: st.Name, Kind: "fail", What: "embedded content is not what its own minifier produces (or, on failure, not the original payload)", Input: key, Impl: h.Q([]byte(got)), Model: h.Q([]byte(want))})
 		}
 	}
+	// CSS escapes inside a quoted data URI belong to the host syntax: the payload is what the CSS string denotes
+	for _, fc := range []struct{ doc, want string }{
+		{`a{b:url('data:text/plain,a\'b c')}`, "a'b c"},
+		{`a{b:url("data:text/plain,say \"hi\" (x)")}`, `say "hi" (x)`},
+		{`a{b:url('data:text/plain,a\\b')}`, `a\b`},
+		{`a{b:url(data:text/plain\,a%20b)}`, ""},
+	} {
+		m := reg()
+		out, err := m.String("text/css", fc.doc)
+		key := fmt.Sprintf("text/css host doc=%q (CSS escapes inside the data URI)", fc.doc)
+		st.Count(key, true)
+		if err != nil {
+			c.R.Add(h.Finding{Stage: st.Name, Kind: "fail", What: "outer call failed: " + err.Error(), Input: key})
+			continue
+		}
+		if fc.want == "" {
+			if out != fc.doc {
+				c.R.Add(h.Finding{Stage: st.Name, Kind: "fail", What: "an escaped unquoted data URI must be left alone", Input: key, Impl: h.Q([]byte(out))})
+			}
+			continue
+		}
+		if got, ok := c11ExtractDataURI(out); !ok || got != fc.want {
+			c.R.Add(h.Finding{Stage: st.Name, Kind: "fail", What: "payload of a data URI written with CSS escapes changed", Input: key, Impl: h.Q([]byte(out)), Model: h.Q([]byte(fc.want))})
+		}
+	}
 	st.End()
 	return nil
 }
@@ -689,13 +750,59 @@ func c11ExtractDataURI(out string) (string, bool) {
 			}
 		}
 	} else if i := strings.Index(out, "url("); i >= 0 {
-		rest := out[i+4:]
+		// CSS Syntax 3 §4.3.6 (consume a url token) / §4.3.5 (string token): the token must end at the `)` that closes the
+		// declaration's value, i.e. be followed by `}`; anything else means the payload was not escaped for the host syntax
+		rest := strings.TrimLeft(out[i+4:], " \t\n")
+		end := -1
 		if len(rest) > 0 && (rest[0] == '\'' || rest[0] == '"') {
-			if j := strings.IndexByte(rest[1:], rest[0]); j >= 0 {
-				uri = rest[1 : 1+j]
+			var sb strings.Builder
+			j := 1
+			for ; j < len(rest) && rest[j] != rest[0]; j++ {
+				if rest[j] == '\n' {
+					return "", false // bad string
+				}
+				if rest[j] == '\\' && j+1 < len(rest) {
+					j++
+				}
+				sb.WriteByte(rest[j])
 			}
-		} else if j := strings.IndexByte(rest, ')'); j >= 0 {
-			uri = rest[:j]
+			if j >= len(rest) {
+				return "", false
+			}
+			uri = sb.String()
+			tail := strings.TrimLeft(rest[j+1:], " \t\n")
+			if !strings.HasPrefix(tail, ")") {
+				return "", false
+			}
+			end = len(rest) - len(tail) + 1
+		} else {
+			var sb strings.Builder
+			j := 0
+			for ; j < len(rest) && rest[j] != ')'; j++ {
+				ch := rest[j]
+				if ch == '"' || ch == '\'' || ch == '(' || ch < 0x20 || ch == 0x7f {
+					return "", false // bad url
+				}
+				if ch == ' ' || ch == '\t' || ch == '\n' {
+					if strings.TrimLeft(rest[j:], " \t\n") == "" || strings.TrimLeft(rest[j:], " \t\n")[0] != ')' {
+						return "", false // bad url
+					}
+					continue
+				}
+				if ch == '\\' && j+1 < len(rest) {
+					j++
+					ch = rest[j]
+				}
+				sb.WriteByte(ch)
+			}
+			if j >= len(rest) {
+				return "", false
+			}
+			uri = sb.String()
+			end = j + 1
+		}
+		if tail := rest[end:]; tail != "}" && tail != "" {
+			return "", false // the url token ended before the end of the value: something of the payload leaked out of it
 		}
 	}
 	if uri == "" {
